@@ -215,13 +215,13 @@ class OntologyStore:
         if ontology_type is None:
             to_delete.extend(os.listdir(self._store_dir))
         else:
-            to_delete.append(os.path.join(self._store_dir, ontology_type.identifier))
+            to_delete.append(ontology_type.identifier)
 
         for item in to_delete:
             full_path = os.path.join(self._store_dir, item)
             if os.path.isdir(full_path):
                 shutil.rmtree(full_path)
-            else:
+            elif os.path.exists(full_path):
                 os.remove(full_path)
 
     def resolve_store_path(
